@@ -60,11 +60,14 @@ func Stats(logFileName, dbFileName string, sc StatsConfig) error {
 	}
 
 	countDb := 0
-	if err = parser.ParseFileCallback(dbFileName, sc.ParserConfig, func(n *shared.ParserNode, _ error) (stop bool, cbError error) {
-		countDb++
-		return false, nil
-	}); err != nil {
-		return err
+	// empty file name: no database (--no-database)
+	if dbFileName != "" {
+		if err = parser.ParseFileCallback(dbFileName, sc.ParserConfig, func(n *shared.ParserNode, _ error) (stop bool, cbError error) {
+			countDb++
+			return false, nil
+		}); err != nil {
+			return err
+		}
 	}
 
 	return NewStatsReporter(sc.ReporterConfig, &StatsData{
